@@ -1,6 +1,7 @@
 (* C07 -- property theorems only.  Gen/Mol2Types.v is regenerated from /repo on every run. *)
 From Coq Require Import String List Bool NArith.
 From Molli Require Import Common.StrSplit Common.Dec6 Gen.Mol2Types Model.Mol2Text Proofs.Mol2Text.
+From Molli Require Import Model.Mol2History Proofs.Mol2History.
 Import ListNotations.
 Local Open Scope N_scope.
 
@@ -211,3 +212,49 @@ Example C07_view_hypotheses_satisfiable :
        [mk_cpos (mk_fx false 11) (mk_fx false 12) (mk_fx false 13) (mk_fx false 14); mk_cpos (mk_fx true 15) (mk_fx false 16) (mk_fx false 17) (mk_fx true 18)])))
      = Some 1%nat.
 Proof. vm_compute. repeat split; reflexivity. Qed.
+
+(* ------------------------------------------------------------------ what was done with the ensemble BEFORE the write.
+   Model/Mol2History.v: a history is any list of look-only operations -- HNew = iter(ens), HNext i = next(it_i) (loops
+   left with break / an exception, next(iter(ens)), zip, any, nested, interleaved and still suspended iterations),
+   HIndex k = ens[k], HWrite = an earlier write, HLook = property reads, str(), ==, copies, slices, failed writes.
+   `write_after e ops` = dumps_mol2 after the history; which conformer every next() handed out is compared with
+   molli on every run (cases CHist). *)
+Theorem C07_history_roundtrip : forall e ops, wf_real_ens e = true ->
+  read_ens RV (write_after e ops) = Some (norm_ens RV e).
+Proof. exact (history_roundtrip C07_table_acc C07_table_bonds). Qed.
+Print Assumptions C07_history_roundtrip.
+
+Theorem C07_history_count_order : forall e ops e', wf_real_ens e = true -> read_ens RV (write_after e ops) = Some e' ->
+  length (e_confs e') = length (e_confs e) /\
+  forall k c, nth_error (e_confs e) k = Some c -> nth_error (e_confs e') k = Some (map canon_cpos c).
+Proof. exact (history_count_order C07_table_acc C07_table_bonds). Qed.
+Print Assumptions C07_history_count_order.
+
+(* every iterator owns its cursor: after ANY further history it stands at (where it stood) + (the number of its own
+   next() calls), capped at the number of conformers *)
+Theorem C07_iterator_cursor : forall ops s i c,
+  nth_error (hs_its s) i = Some c -> c <= lenN (e_confs (hs_ens s)) ->
+  nth_error (hs_its (h_run s ops)) i = Some (N.min (c + count_next i ops) (lenN (e_confs (hs_ens s)))).
+Proof. exact iterator_cursor. Qed.
+Print Assumptions C07_iterator_cursor.
+
+Theorem C07_fresh_iterator_yields : forall s ops,
+  let s1 := fst (h_step s HNew) in
+  let i := length (hs_its s) in
+  let s2 := h_run s1 ops in
+  snd (h_step s2 (HNext i)) =
+    (if count_next i ops <? lenN (e_confs (hs_ens s)) then RYield (count_next i ops) else RStop).
+Proof. exact fresh_iterator_yields. Qed.
+Print Assumptions C07_fresh_iterator_yields.
+
+(* the hypotheses are satisfiable (3 conformers, a nested loop left early, a suspended iterator, a write), the trace
+   check refuses a second iterator that starts where the first one stands, and the excluded design -- one cursor stored
+   on the ensemble, rewound at the end of a loop -- loses the leading conformer after next(iter(ens)) *)
+Example C07_history_hypotheses_satisfiable :
+  wf_real_ens hist_demo = true
+  /\ option_map (fun e : ens RV => length (e_confs e)) (read_ens RV (write_after hist_demo hist_demo_ops)) = Some 3%nat.
+Proof. split; apply history_demo. Qed.
+Lemma C07_history_refuted_by_shared_cursor :
+  option_map (fun e : ens RV => length (e_confs e)) (read_ens RV (shared_write_after hist_demo [])) = Some 3%nat
+  /\ option_map (fun e : ens RV => length (e_confs e)) (read_ens RV (shared_write_after hist_demo [HNew; HNext 0])) = Some 2%nat.
+Proof. split; apply shared_cursor_refuted. Qed.
